@@ -476,7 +476,11 @@ func runC15(sc drv.Scenario) drv.Result {
 	if p.ExpectStart {
 		if covered != p.NumVB && p.Mode == "" {
 			res.Verdict, res.Clause, res.FindingKey = drv.Violated, "partial", "C15/partial-session"
-			res.Detail = fmt.Sprintf("the session runs but vBuckets %v have no open stream (fault %s): it silently covers only part of its assignment", missing, p.Fault)
+			shown := missing
+			if len(shown) > 12 {
+				shown = shown[:12]
+			}
+			res.Detail = fmt.Sprintf("the session runs but %d of %d vBuckets have no open stream (first ones: %v; fault %s): it silently covers only part of its assignment", len(missing), p.NumVB, shown, p.Fault)
 			return res
 		}
 		res.Verdict = drv.Held
